@@ -60,7 +60,7 @@ func (q PathQuery) Find() ([]Point, bool) {
 			}
 		}
 		if len(b.Succs) == 0 {
-			if q.TargetExit && q.PanicExit && q.F.IsPanicExit(b) {
+			if q.TargetExit && (q.PanicExit && q.F.IsPanicExit(b) || q.F.IsImplicitReturn(b)) {
 				pt := Point{b, len(b.Nodes)}
 				found = &pt
 			}
